@@ -117,7 +117,7 @@ func (fr *Frame) callAssigns(c *ssa.CallCommon) (map[string]bool, bool) {
 		}
 		isLib := !strings.HasPrefix(ci.display, "package-operator.run/") && !strings.HasPrefix(ci.display, "(package-operator.run/") &&
 			!strings.HasPrefix(ci.display, "field package-operator.run/") && !strings.HasPrefix(ci.display, "dynamic:")
-		if c.IsInvoke() && accessorIface(ci.display) {
+		if c.IsInvoke() && (accessorIface(ci.display) || isAdapterIface(c.Value.Type())) {
 			m := ci.display[strings.LastIndex(ci.display, ".")+1:]
 			if !accessorMutator(m) {
 				return out, false
@@ -330,11 +330,18 @@ func (fr *Frame) call(in ssa.Instruction, c *ssa.CallCommon) []Val {
 	}
 	// accessor interfaces of internal/adapters (thin wrappers around API object fields): getters are read-only,
 	// setters change the wrapped object only (trusted accessor model, listed in the evidence)
-	if ci.invoke && accessorIface(ci.display) {
+	if ci.invoke && (accessorIface(ci.display) || isAdapterIface(c.Value.Type())) {
 		m := ci.display[strings.LastIndex(ci.display, ".")+1:]
 		ex.usedSpecs["accessor-model "+shortName(ci.display)] = true
 		if !accessorMutator(m) {
-			return fr.freshResults(ci.sig, "ret_"+m)
+			res := fr.freshResults(ci.sig, "ret_"+m)
+			for _, r := range res {
+				// pointers handed out by an accessor point into the wrapped object (or to something older), never into the caller's locals
+				if r.G != nil && isPointerLike(r.G) {
+					ex.assume(fmt.Sprintf("(or (<= (root %s) allocbase) (= (root %s) (root (ival %s))))", r.T, r.T, ci.recv.T), fr.curReach)
+				}
+			}
+			return res
 		}
 		if accessorMutator(m) {
 			// a setter changes only the wrapped API object: Go memory, and the abstract rows of the adapter and of its client object
